@@ -5,7 +5,7 @@ import mpicommon
 
 LEVEL = "model_checking"
 BUILDS = [(("drv_c11", ["drv_c11.cpp"]), {})]
-ACTIONS = ("Fill1", "Mid", "Begin", "Fill", "BinResult", "End")
+ACTIONS = ("Fill1", "Mid", "Begin", "Fill", "BinResult", "End", "AccBins")
 
 
 def run_main(chk, replay=None):
